@@ -141,7 +141,8 @@ def register(R):
       f'{TM}::TransformRunner.update_state', P, variant='one-aggregate-one-slicer',
       types=dict(self='TransformRunner', state='map[obj,obj]', inputs='obj'), ret='map[obj,obj]', setup=_runner_setup,
       requires=["MetricKey('k') in state", 'not fn0.disable_slicing'], modifies=['state'],
-      may_raise=['KeyError', 'ValueError'],
+      # it fails only when the wrapped aggregate does (ValueError); the keys it reads exist by construction
+      may_raise=['ValueError'],
       ensures=['result is state'] + sliced(f'len({SLICES})'),
       loops={2: dict(invariant=['tree_agg_fn.fn_id is fn0.fn_id', 'idx_slice_key >= 0'] + sliced('idx_slice_key'),
                      retype={'tree_agg_fn': 'TreeAggregateFn'})},
